@@ -270,14 +270,14 @@ def run(ctx):
             viol(ctx, '%s:uploader:run:%s' % (P, rec['err'].split(':')[0]), {'vector': v, 'err': rec['err']}, 'upload.Run: ' + rec['err'])
             continue
         reqs = {q['path'].lstrip('/'): q for q in rec.get('requests') or []}
-        for wk in v['weeks']:
+        for wk in [wk for wk in v['weeks'] if wk['x'] == v['x']]:     # every draw of a C11 run returns v['x']
             date = A.week_end(wk['w']).isoformat()
             exp = {'up5': A.tdata(wk['up5']), 'b5': set(A.btuple(b) for b in wk['b5']), 'local': A.tdata(wk['local'])}
             detail = {'vector': {'fam': v['fam'], 'cfg': v['cfg'], 'files': v['files'], 'x': v['x'], 'd': v['d']}, 'week': date}
             q = reqs.get(date)
             n_up += 1
             if q is None:
-                if exp['up5'] and v['mustsend']:
+                if exp['up5'] and wk['mustsend']:
                     viol(ctx, '%s:uploader:no-report-although-approved-data' % P, detail, 'no report posted for %s' % date)
                 else:
                     n_up_ok += 1
